@@ -20,6 +20,8 @@ CFG = HOME + "/.config/IsoQuant"
 
 def fake_create_db(gtf, db, force=True, **kw):
     # gffutils.create_db(force=True): an existing file is removed, then the sqlite file is created and filled
+    if os.path.basename(gtf).startswith("bad"):
+        raise ValueError("malformed annotation %s" % gtf)           # what gffutils does with a file it cannot parse
     if os.path.exists(db):
         os.remove(db)
     mt = os.path.getmtime(gtf)
@@ -96,7 +98,9 @@ def make_process(pid, gtf, outdir, clean_start=False, with_mapper_caches=False, 
         args = SimpleNamespace(clean_start=clean_start, complete_genedb=complete, gtf_check=False, genedb=gtf, output=outdir,
                                genedb_filename=os.path.join(outdir, os.path.splitext(os.path.basename(gtf))[0] + ".db"))
         isoquant.set_configs_directory(args)
-        g, db = G.convert_db(os.path.abspath(gtf), args.genedb_filename, G.gtf2db, args)
+        # the entry point the pipeline uses (isoquant.run_pipeline): args.genedb is the annotation, args.genedb_filename the target
+        db = G.convert_gtf_to_db(args)
+        g = os.path.abspath(gtf)
         with open(db, "r") as f:
             content = f.read()
         res = {"gtf": g, "db": db, "db_content": content, "gtf_mtime": os.path.getmtime(gtf), "gtf_mtime_start": mt0, "complete": complete}
@@ -212,6 +216,12 @@ def scenario(name):
         return [(1, g(1), o(1), True, "index"), (2, g(1), o(2), False, "index")], init
     if name == "index-two-fresh":
         return [(1, g(1), o(1), False, "index"), (2, g(1), o(2), False, "index")], lambda v: base_init(v, cfg_exists=True)
+    if name == "failing-run-vs-valid":
+        # run 1 is given an annotation the converter rejects (it fails, as it would alone); runs 2 and 3 are ordinary runs
+        def init(v):
+            base_init(v, cfg_exists=True)
+            v.add(V + "data/bad1.gtf", "garbage", mtime=13.0)
+        return [(1, V + "data/bad1.gtf", o(1), False, False), (2, g(2), o(2), False, False), (3, g(2), o(3), False, False)], init
     if name == "same-gtf-different-completeness":
         # the same annotation converted with and without --complete_genedb: each run must use a conversion made with its own setting
         return [(1, g(1), o(1), False, False, False), (2, g(1), o(2), False, False, True)], lambda v: base_init(v)
@@ -260,6 +270,11 @@ def make_check(specs):
                 continue
             pid, gtf, outdir, clean, mapper = sp[:5]
             e = s.errors[i]
+            if os.path.basename(gtf).startswith("bad"):
+                # this run fails by itself, exactly as it does alone; it is here for what it leaves behind
+                if e is None:
+                    out.append(("bad-annotation-accepted", "process %d converted a malformed annotation" % pid))
+                continue
             if e is not None:
                 out.append(("process-failed:%s" % type(e).__name__, "process %d (%s) died with %r" % (pid, os.path.basename(gtf), e)))
                 continue
@@ -337,6 +352,7 @@ def run(ctx):
     jobs.append(("index-two-fresh", 2 if quick else 3, 60000 if quick else 400000))
     jobs.append(("gtf-rewritten-during-conversion", 2 if quick else 3, 60000 if quick else 400000))
     jobs.append(("three-processes", 1 if quick else 2, 60000 if quick else 400000))
+    jobs.append(("failing-run-vs-valid", 1 if quick else 2, 60000 if quick else 400000))
     if not quick:
         jobs.append(("three-fresh", 1, 400000))
     tot = {"executions": 0, "states": 0, "transitions": 0, "complete": 0}
